@@ -215,11 +215,26 @@ class _Gen:
         self.spawned = 0
         self.creates = 0
         self.prebuilt: list[int] = []  # uids built by the actor being generated, not entered yet
+        self.kw_stack: list[dict] = []  # settings of the blocks enclosing the statement being generated
 
     # -- settings
+    REPEATABLE = {
+        'callback': ('k0', 'k1', 'D'),
+        'solver': ('cg1', 'cg40', 'cg41', 'cg500'),
+        'options': ('S', 'Z'),
+        'throw': (True, False),
+    }
+
     def kw(self) -> dict:
         rng = self.rng
         heavy = self.sw['heavy']
+        if self.kw_stack and rng.random() < 0.15:
+            # repeat (the repeatable part of) an enclosing block's settings: a block that changes nothing
+            # relative to what is active, possibly in a child context
+            src = rng.choice(self.kw_stack)
+            same = {n: v for n, v in src.items() if v in self.REPEATABLE[n]}
+            if same:
+                return dict(same)
         kw: dict[str, Any] = {}
         names = ['callback', 'solver', 'throw', 'options']
         k = rng.choice([1, 1, 2, 2, 3, 4])
@@ -340,7 +355,11 @@ class _Gen:
             uid = self.uid
             kw = self.kw()
             inner = rng.randint(1, max(1, budget - 1))
-            return ['BLOCK', uid, kw, self.body(depth + 1, inner, sync, in_try)], inner + 1
+            self.kw_stack.append(kw)
+            try:
+                return ['BLOCK', uid, kw, self.body(depth + 1, inner, sync, in_try)], inner + 1
+            finally:
+                self.kw_stack.pop()
         if kind == 'READ':
             return ['READ'], 1
         if kind == 'CREATE':
